@@ -161,6 +161,8 @@ pub trait Property: 'static {
     /// Number of seeded random runs.
     fn random_runs(tier: Tier) -> u64;
     fn generate(rng: &mut Rng, tier: Tier) -> Self::S;
+    /// probes (rare conditions) this property's workload is meant to reach; one stuck at zero is reported
+    fn probes() -> Vec<usize>;
     fn rule() -> &'static str;
     fn assumptions() -> Vec<&'static str>;
     fn real_components() -> Vec<&'static str>;
